@@ -29,10 +29,22 @@ package note
 //@   pure
 //@   ensures [C07] name_rule: result == (name != "" && utf8.ValidString(name) && !HASSPACE(name) && !strings.Contains(name, "+"))
 //@   props C07
+//@ # the list-backed Verifiers: every listed verifier is filed under its (name, key hash); a lookup answers with the
+//@ # verifier filed alone under that key, "unknown" when none is filed, "ambiguous" when several are
 //@ func VerifierList
 //@   allocates
-//@   trusted "builds the map from (name, hash) to verifiers; used by Open only for a nil argument (empty list)"
+//@   modifies map.verifierMap, []Verifier
 //@   ensures result != nil
+//@   loop 0:
+//@     invariant 0 - 1 <= @idx && @idx < len(list) && m != nil
+//@     decreases len(list) - @idx
+//@   props C07
+//@ func verifierMap.Verifier
+//@   requires_assumed "representation invariant of verifierMap: only VerifierList builds one, and it files at least one verifier under every key it creates (its postcondition nonempty_lists)" forall nm string, h uint32 {m[mk("nameHash", nm, h)]} :: has(m, mk("nameHash", nm, h)) ==> len(m[mk("nameHash", nm, h)]) >= 1
+//@   allocates
+//@   ensures [C07] unknown_key: !has(m, mk("nameHash", name, hash)) ==> result0 == nil && typeof(result1) == typeid("*UnknownVerifierError")
+//@   ensures [C07] ambiguous_key: has(m, mk("nameHash", name, hash)) && len(m[mk("nameHash", name, hash)]) > 1 ==> result0 == nil && result1 != nil && typeof(result1) != typeid("*UnknownVerifierError")
+//@   ensures [C07] single_verifier: has(m, mk("nameHash", name, hash)) && len(m[mk("nameHash", name, hash)]) == 1 ==> result1 == nil && result0 == m[mk("nameHash", name, hash)][0]
 //@   props C07
 
 //@ # a signature line s of the note is verified: its key is known and the key's verifier accepted the decoded
@@ -62,6 +74,7 @@ package note
 
 //@ func Open
 //@   let KNOWN Verifiers = known @before loop 1
+//@   modifies map.verifierMap, []Verifier
 //@   hint string(sigSplit) == "\n\n"
 //@   ensures [C07] verified_over_text: result1 == nil ==> result0 != nil && len(result0.Sigs) >= 1 && ISTEXTOF(result0.Text, string(msg))
 //@   ensures [C07] every_listed_signature_checked: result1 == nil ==> (forall k int :: 0 <= k && k < len(result0.Sigs) ==> SIGOK(KNOWN, result0.Sigs[k], result0.Text))
